@@ -150,6 +150,9 @@ def vmware_leg(ctx):
             ctx.violate("capture-vmware", dict(rp, observed="the saved image is not the server's current framebuffer"))
 
 
+req_lines = []
+
+
 def run(ctx):
     vmware_leg(ctx)
     r = ctx.rng
@@ -188,6 +191,14 @@ def run(ctx):
                 ctx.violate("vncdo-rejects-valid-script", dict(rp, observed="vncdo() ended with %r" % (res["error"],)))
                 continue
             bad, n_mid = oracle(spec, res, size0)
+            if "made" in tl:
+                # the history after the session is established, judged by the checker C06_sys_requests_current is about
+                toks_ = []
+                for t in tl[tl.index("made") + 1:]:
+                    if t.startswith("desktop:"): toks_.append("d%sx%s" % tuple(t.split(":")[1:3]))
+                    elif t.startswith("w:") and len(t) > 2: toks_.append("q" + t[2:])
+                    elif t.startswith("commit"): toks_.append("c")
+                req_lines.append(("reqcur %d %d %s" % (size0[0], size0[1], " ".join(toks_)), rp, bool(bad)))
             ctx.count("captures_issued_mid_update", n_mid)
             if bad:
                 ctx.violate("capture", dict(rp, observed=bad))
@@ -201,3 +212,9 @@ def run(ctx):
     if mout is not None:
         for off, k, chk in checks:
             chk(mout[off:off + k])
+    rout = ctx.drive([l for l, _, _ in req_lines])
+    if rout is not None:
+        for (l, rp, pybad), o in zip(req_lines, rout):
+            ctx.count("histories_judged_by_the_lean_request_checker")
+            if o == "ok false" and not pybad:
+                ctx.violate("capture", dict(rp, observed="an update request in the history does not ask for the whole desktop as announced last before it (VncSpec/Requests.lean requestsCurrent): %s" % l[:300]))
